@@ -8,7 +8,13 @@ from ..model import Expr, In, Ref, Program, Step
 
 def base_program(rng):
     shape = rng.choice(["chain", "diamond", "fan_in", "wait_for", "enabled", "foreach", "foreach", "foreach_after", "random_dag", "deploy_expr", "functions", "functions",
-                        "fault_by_input", "fault_by_input", "oneof_ordered"])
+                        "fault_by_input", "fault_by_input", "oneof_ordered", "deploy_by_input"])
+    if shape == "deploy_by_input":
+        # the deployment configuration of a step comes from the run's input: each run deploys (or fails to) on its own terms
+        a = gen.plugin_step("a", Expr(In("tag")))
+        b = gen.plugin_step("b", gen.tagref("a"), deploy={"deployer_name": "scripted", "fail": Expr(In("flag")), "tag": Expr(In("tag"))})
+        outs = {"success": {"b": gen.tagref("b")}, "undeployed": {"why": Expr(Ref("b", "deploy_failed", "error", "error")), "a": gen.tagref("a")}}
+        return shape, [a, b], outs
     if shape == "fault_by_input":
         # an expression that cannot be evaluated for some inputs (n = 0): such a run fails,
         # and must leave the prepared workflow as it was
@@ -69,6 +75,8 @@ def run(check):
         for r in range(N):
             tag = "R%dx" % r
             inp = {"tag": tag, "n": r + 1}
+            if shape == "deploy_by_input":
+                inp["flag"] = rng.random() < 0.5
             if shape == "fault_by_input" and (rng.random() < 0.35 or r == 0 and rng.random() < 0.5):
                 inp["n"] = 0
             if has_fe:
